@@ -1,7 +1,107 @@
 /-
-  EasyMl.Props.C02 — property theorems for C02 (work in progress).
+  EasyMl.Props.C02 — property theorems for C02 (every tensor view adaptor and every composition
+  exposes exactly its documented index mapping).
+
+  Only property statements live here; helper lemmas are in EasyMl/Lemmas/View*.lean.  The
+  theorems are about the very definitions the `emlmodel` driver executes against the
+  implementation: `View.shape / get / getUnchecked / layout / write` (Model/View.lean) and the
+  specification `View.specGet` (Spec/View.lean).  All are proved by structural induction over
+  `View` (`View.ind`), so they hold for compositions of *any* depth and any number of stacked /
+  chained sources, any dimensionality, any parameters.
+
+  `View.WF` is the invariant the library's constructors establish (`constructors_establish_wf`
+  below: every `mkX` of the model, i.e. every validation of `…::from / try_from / from_strict`,
+  returns only well-formed views when given well-formed sources).
 -/
-import EasyMl.Spec.View
+import EasyMl.Lemmas.ViewMapping
+import EasyMl.Lemmas.ViewInjective
 
 namespace EasyMl.C02
+open EasyMl EasyMl.Spec EasyMl.View
+
+set_option linter.unusedSectionVars false
+
+variable {ν : Type} [DecidableEq ν] [Inhabited ν] {α : Type}
+
+/-- **Shape validity.**  The shape of every view the constructors accept has unique names and
+    lengths ≥ 1 (clauses 3 and 4 of the `TensorRef` contract) — and lengths that fit in `usize`. -/
+theorem view_shape_valid (v : View ν α) (h : v.WF) :
+    ValidShape v.shape ∧ ∀ d ∈ v.shape, d.2 ≤ usizeMax :=
+  (View.correct v h).1
+
+/-- **Presence.**  For *all* coordinates up to `usize::MAX` the checked getters return without
+    any panic / overflow outcome, and the answer is `Some` exactly when the index tuple lies
+    inside the view's shape.  (This is the statement the unrepaired `TensorReverse` / `TensorMask`
+    getters fail: defects #4, #5.) -/
+theorem view_get_some_iff_inBounds (v : View ν α) (h : v.WF) (idx : List Nat)
+    (hl : idx.length = v.shape.length) (hb : ∀ i ∈ idx, i ≤ usizeMax) :
+    ∃ r, v.get idx = .ok r ∧ (r.isSome ↔ inBounds (lens v.shape) idx = true) := by
+  refine ⟨v.specGet idx, (View.correct v h).2 idx hl hb, ?_⟩
+  unfold View.specGet
+  by_cases hin : inBounds (lens v.shape) idx = true
+  · simp only [hin, if_true, iff_true]
+    exact View.specCell_isSome v h idx hin
+  · simp [hin]
+
+/-- **Mapping.**  The cell a checked getter resolves to is the documented mapping of the adaptors
+    applied down to the leaf (`View.specGet`, Spec/View.lean). -/
+theorem view_get_eq_spec (v : View ν α) (h : v.WF) (idx : List Nat)
+    (hl : idx.length = v.shape.length) (hb : ∀ i ∈ idx, i ≤ usizeMax) :
+    v.get idx = .ok (v.specGet idx) :=
+  (View.correct v h).2 idx hl hb
+
+/-- **No aliasing.**  When the leaves are distinct containers (distinct leaf ids — always the
+    case for owned / `&mut` sources), distinct in-bounds index tuples resolve to distinct cells,
+    and every cell belongs to one of the view's own leaves.  (This is what makes handing out
+    `&mut` references from the mutable iterators sound.) -/
+theorem view_get_injective (v : View ν α) (h : v.WF) (hn : v.leafIds.Nodup) (a b : List Nat)
+    (ha : inBounds (lens v.shape) a = true) (hb : inBounds (lens v.shape) b = true)
+    (c : Cell) (hca : v.get a = .ok (some c)) (hcb : v.get b = .ok (some c)) :
+    a = b ∧ c.1 ∈ v.leafIds := by
+  have hg := (View.correct v h).1
+  have la := inBounds_length ha
+  have lb := inBounds_length hb
+  simp only [lens_length] at la lb
+  rw [(View.correct v h).2 a la (bounded_of_inBounds ha hg.lens_le)] at hca
+  rw [(View.correct v h).2 b lb (bounded_of_inBounds hb hg.lens_le)] at hcb
+  simp only [View.specGet, ha, hb, if_true, Outcome.ok.injEq] at hca hcb
+  refine ⟨(View.resolves v h).2 hn a b ha hb (by rw [hca, hcb]), ?_⟩
+  obtain ⟨c', hc', hm⟩ := (View.resolves v h).1 a ha
+  rw [hca] at hc'
+  simp only [Option.some.injEq] at hc'
+  rw [hc']; exact hm
+
+/-- **The constructors establish the invariant.**  Every validation of the model
+    (`Tensor::from`, `TensorRefMatrix::with_names`, `TensorRange/TensorMask::from`, `from_all`,
+    `from_strict`, `from_all_strict`, `TensorIndex::from`, `TensorExpansion::from` with its stable
+    sort, `TensorRename::from`, `TensorReverse::from`, `TensorAccess/TensorTranspose::try_from`,
+    `TensorStack::from`, `TensorChain::from`) accepts only arguments for which the resulting view
+    is well formed, given well-formed sources.  The two size side conditions are the ones
+    discussed at `View.WF`. -/
+theorem constructors_establish_wf :
+    (∀ (id : Nat) (shape : Shape ν) (data : List α) (v : View ν α),
+      mkTensor id shape data = some v → data.length ≤ usizeMax → v.WF) ∧
+    (∀ (id rows columns : Nat) (data : List α) (r c : ν) (v : View ν α),
+      mkMatrix id rows columns data r c = some v → data.length ≤ usizeMax → v.WF) ∧
+    (∀ (s v : View ν α), s.WF →
+      (∀ rs, mkRange s rs = some v → v.WF) ∧ (∀ rs, mkRangeStrict s rs = some v → v.WF) ∧
+      (∀ rs, mkRangeAll s rs = some v → v.WF) ∧ (∀ rs, mkRangeAllStrict s rs = some v → v.WF) ∧
+      (∀ ms, mkMask s ms = some v → v.WF) ∧ (∀ ms, mkMaskStrict s ms = some v → v.WF) ∧
+      (∀ ms, mkMaskAll s ms = some v → v.WF) ∧ (∀ ms, mkMaskAllStrict s ms = some v → v.WF) ∧
+      (∀ p, mkIndex s p = some v → v.WF) ∧ (∀ e, mkExpansion s e = some v → v.WF) ∧
+      (∀ ns, mkRename s ns = some v → v.WF) ∧ (∀ ns, mkReverse s ns = some v → v.WF) ∧
+      (∀ ns, mkAccess s ns = some v → v.WF) ∧ (∀ ns, mkTranspose s ns = some v → v.WF)) ∧
+    (∀ (ss : List (View ν α)) (v : View ν α), (∀ s ∈ ss, s.WF) →
+      (∀ along, ss.length ≤ usizeMax → mkStack ss along = some v → v.WF) ∧
+      (∀ along, (∀ a, (chainLens (shapes ss) a).sum ≤ usizeMax) → mkChain ss along = some v → v.WF)) := by
+  refine ⟨fun _ _ _ _ h hm => mkTensor_wf h hm, fun _ _ _ _ _ _ _ h hm => mkMatrix_wf h hm, ?_, ?_⟩
+  · intro s v hs
+    exact ⟨fun _ h => mkRange_wf hs h, fun _ h => mkRangeStrict_wf hs h, fun _ h => mkRangeAll_wf hs h,
+      fun _ h => mkRangeAllStrict_wf hs h, fun _ h => mkMask_wf hs h, fun _ h => mkMaskStrict_wf hs h,
+      fun _ h => mkMaskAll_wf hs h, fun _ h => mkMaskAllStrict_wf hs h, fun _ h => mkIndex_wf hs h,
+      fun _ h => mkExpansion_wf hs h, fun _ h => mkRename_wf hs h, fun _ h => mkReverse_wf hs h,
+      fun _ h => mkAccess_wf hs h, fun _ h => mkTranspose_wf hs h⟩
+  · intro ss v hs
+    exact ⟨fun _ hn h => mkStack_wf hs hn h, fun _ hsum h => mkChain_wf hs hsum h⟩
+
 end EasyMl.C02
